@@ -465,6 +465,8 @@ func (s *reportSim) Reset() {
 
 	for _, warrior := range s.warriors {
 		warrior.state = WarriorAdded
+		// its tasks belong to the finished round
+		warrior.pq = nil
 	}
 	s.mem = make([]Instruction, s.m)
 	s.cycleCount = 0
